@@ -1,6 +1,7 @@
 import DryocVerif.Proofs.SecretBox
 import DryocVerif.Properties.C03
 import DryocVerif.Proofs.RawExtra
+import DryocVerif.Proofs.BoxStoreExtra
 /-
 C17 — a failed open releases nothing.
 
@@ -15,6 +16,19 @@ as it was along the code-shaped paths `objPullRaw` (total `pull`, state threaded
 `objPullCode` (statement-by-statement `pull`, state threaded through the `?`).
 Counter-models of the two repaired defects (`openDetachedInplaceOld`, `openDetachedOld`, `pullOld`) show
 what the theorems exclude.
+
+WHAT IS TRUE BY DEFINITION, AND WHAT IS NOT (third review).  Every `failed_*_no_release*`, `no_release_unless_ok_*`,
+`stream_failed_pull_no_release`, `pullRaw_failed_no_release`, `objPullRaw_err_keeps_state`, `objPullCode_err_keeps_state`
+statement of this file unfolds a model whose `.err` branch NAMES the caller's values (`⟨.err, m⟩`, `⟨.err, m, tagv, s⟩`,
+`wrapOpened`, `pullRawWith`).  They state that the model's verdict and its buffer field fit together; they would survive
+any reordering of the writes in the Rust (moving `xor_buf(inonce, &mac)` or `message.copy_from_slice(..)` above the MAC
+comparison breaks none of them), and the `…Old` counter-models above differ from the models by hand-written `.err`
+branches.  The section "store-passing models" at the end states the property where it is NOT by definition: the Rust
+assignments are writes to a store IN SOURCE ORDER, `Err` returns the store as it is at the `return`, and
+`pullStmts_err_untouched` / `openDetachedStmts_err_untouched` / `openDetachedInplaceStmts_err_untouched` hold because
+every early return precedes the first write — they FAIL for the pre-E7 / pre-E8 orders and for the reordering named above
+(`pullStmtsOld8_violates`, `pullStmtsEarlyState_violates`, `openDetachedStmtsOld7_violates`,
+`openDetachedInplaceStmtsOld7_violates`).  `…_eq_…Raw` tie the by-definition models to them.
 -/
 namespace DryocVerif.Properties.C17
 open DryocVerif DryocVerif.Model.SecretBox
@@ -310,8 +324,11 @@ theorem objPullRaw_eq_objPull (P : Model.SecretStream.Prims) (s : Model.SecretSt
     Model.SecretStream.objPullRaw P s ct ad = Model.SecretStream.objPull P s ct ad :=
   Proofs.SecretStream.objPullRaw_eq_objPull P s ct ad
 
-/-- a rejected `DryocStream::pull` leaves the stream state as it was — stated for the code-shaped
-`objPullRaw`, where it is NOT true by definition -/
+/-- a rejected `DryocStream::pull` leaves the stream state as it was — stated for the code-shaped `objPullRaw`, whose
+error branch returns `r.st`, the state the classic `pull` left.  (Corrected after the third review: the docstring used to
+say "where it is NOT true by definition".  For `objPullRaw` itself it is not by definition — but it reduces to the fact
+that the model `pull` returns `s` on `Err`, which IS by definition of `pull`.  The statement that depends on the order
+of the writes of the classic `pull` is `pullStmts_err_untouched`, below.) -/
 theorem objPullRaw_err_keeps_state (P : Model.SecretStream.Prims) (s : Model.SecretStream.State) (ct ad : Bytes)
     (h : (Model.SecretStream.objPullRaw P s ct ad).1 = .err) :
     (Model.SecretStream.objPullRaw P s ct ad).2 = s := by
@@ -496,6 +513,111 @@ theorem old_pull_violates_no_release :
   intro h
   exact absurd (h C03.toyP C03.toyS [9, 9, 9] 7 ([1, 2] ++ zeros 16) [0x42] (by decide)).1 (by decide)
 
+/-! ### store-passing models: "a failed open releases nothing" as a theorem about the ORDER of the writes
+
+`Model/SecretStreamStore.lean`, `Model/SecretBoxStore.lean` (third review).  A statement is a function on the store
+(everything the Rust function can write to); every assignment of the Rust is a `Stmt.write`, in source order; `Err` and
+panic return the store reached so far. -/
+
+section StorePassing
+open Model.SecretStream in
+/-- **classic stream `pull`: a rejected call returns state, message buffer and tag variable untouched**, every input,
+every instantiation of the primitives.  NOT by definition: it holds because each of the four `return Err` of the source
+(three length guards, the MAC comparison) precedes `*tag = decrypted_tag`, the first write. -/
+theorem pullStmts_err_untouched (P : Model.SecretStream.Prims) (ct ad : Bytes) (μ : Mem)
+    (h : (pullStmts P ct ad μ).1 = .err) : (pullStmts P ct ad μ).2 = μ :=
+  Proofs.SecretStream.pullStmts_err_untouched P ct ad μ h
+
+open Model.SecretStream in
+/-- … and the store-passing model is `pullRaw`, the statement-by-statement model of C04 (verdict and all three
+outputs), hence `pullChecked` and, below the length limit, `pull`: the by-definition models ARE the source order -/
+theorem pullStmts_eq_pullRaw (P : Model.SecretStream.Prims) (ct ad : Bytes) (μ : Mem) :
+    pullStmts P ct ad μ =
+      ((pullRaw P μ.st μ.buf μ.tag ct ad).res,
+       ⟨(pullRaw P μ.st μ.buf μ.tag ct ad).st, (pullRaw P μ.st μ.buf μ.tag ct ad).buf,
+        (pullRaw P μ.st μ.buf μ.tag ct ad).tag⟩) :=
+  Proofs.SecretStream.pullStmts_eq_pullRaw P ct ad μ
+
+open Model.SecretStream in
+theorem pullStmts_never_panics (P : Model.SecretStream.Prims) (ct ad : Bytes) (μ : Mem) :
+    (pullStmts P ct ad μ).1 ≠ .panic :=
+  Proofs.SecretStream.pullStmts_never_panics P ct ad μ
+
+open Model.SecretStream in
+/-- **the order before fix E8 (tag and plaintext written before the comparison) violates it** -/
+theorem pullStmtsOld8_violates :
+    ¬ ∀ (P : Model.SecretStream.Prims) (ct ad : Bytes) (μ : Mem),
+        (pullStmtsOld8 P ct ad μ).1 = .err → (pullStmtsOld8 P ct ad μ).2 = μ :=
+  Proofs.SecretStream.pullStmtsOld8_violates
+
+open Model.SecretStream in
+/-- the pre-E8 order has the same verdict, and the same store on `Ok`: only a rejected pull tells them apart -/
+theorem pullStmtsOld8_res (P : Model.SecretStream.Prims) (ct ad : Bytes) (μ : Mem) :
+    (pullStmtsOld8 P ct ad μ).1 = (pullStmts P ct ad μ).1 ∧
+    (∀ n, (pullStmts P ct ad μ).1 = .ok n → pullStmtsOld8 P ct ad μ = pullStmts P ct ad μ) :=
+  Proofs.SecretStream.pullStmtsOld8_res P ct ad μ
+
+open Model.SecretStream in
+/-- **`xor_buf(inonce, &mac)` moved above the MAC comparison violates it** — the reordering no theorem about `pull` /
+`pullRaw` notices; here a forgery has changed the inner nonce of the rejected pull's state -/
+theorem pullStmtsEarlyState_violates :
+    ¬ ∀ (P : Model.SecretStream.Prims) (ct ad : Bytes) (μ : Mem),
+        (pullStmtsEarlyState P ct ad μ).1 = .err → (pullStmtsEarlyState P ct ad μ).2 = μ :=
+  Proofs.SecretStream.pullStmtsEarlyState_violates
+
+/-- **`crypto_secretbox_open_detached`: a rejected call returns the caller's message buffer untouched**, every input, no
+hypothesis.  NOT by definition: the only `return Err` is the `?` on `crypto_secretbox_open_verify`, and since fix E7 it
+precedes `message.copy_from_slice(ciphertext)`. -/
+theorem openDetachedStmts_err_untouched (P : Prims) (mac c n k m : Bytes)
+    (h : (openDetachedStmts P mac c n k m).1 = .err) : (openDetachedStmts P mac c n k m).2 = m :=
+  Proofs.SecretBox.openDetachedStmts_err_untouched P mac c n k m h
+
+/-- … and it is `openDetachedRaw` (C04), hence `openDetached`, for every ciphertext a slice can hold; `openEasy`,
+`boxOpenEasy`, `boxOpenDetached`, `boxOpenDetachedAfternm` and `sealOpen` are one-line callers of it that write nothing
+themselves -/
+theorem openDetachedStmts_eq_openDetachedRaw (P : Prims) (mac c n k m : Bytes) (hl : c.length < 2 ^ 64) :
+    openDetachedStmts P mac c n k m =
+      ((openDetachedRaw P m mac c n k).res, (openDetachedRaw P m mac c n k).buf) :=
+  Proofs.SecretBox.openDetachedStmts_eq_openDetachedRaw P mac c n k m hl
+
+/-- `crypto_secretbox_open_detached_inplace`: a rejected call leaves the ciphertext in place -/
+theorem openDetachedInplaceStmts_err_untouched (P : Prims) (mac n k data : Bytes)
+    (h : (openDetachedInplaceStmts P mac n k data).1 = .err) : (openDetachedInplaceStmts P mac n k data).2 = data :=
+  Proofs.SecretBox.openDetachedInplaceStmts_err_untouched P mac n k data h
+
+theorem openDetachedInplaceStmts_eq_openDetachedInplaceRaw (P : Prims) (mac n k data : Bytes)
+    (hl : data.length < 2 ^ 64) :
+    openDetachedInplaceStmts P mac n k data =
+      ((openDetachedInplaceRaw P data mac n k).res, (openDetachedInplaceRaw P data mac n k).buf) :=
+  Proofs.SecretBox.openDetachedInplaceStmts_eq_openDetachedInplaceRaw P mac n k data hl
+
+/-- **the order before fix E7 (copy and decrypt, then the verdict) violates both** -/
+theorem openDetachedStmtsOld7_violates :
+    ¬ ∀ (P : Prims) (mac c n k m : Bytes),
+        (openDetachedStmtsOld7 P mac c n k m).1 = .err → (openDetachedStmtsOld7 P mac c n k m).2 = m :=
+  Proofs.SecretBox.openDetachedStmtsOld7_violates
+
+theorem openDetachedInplaceStmtsOld7_violates :
+    ¬ ∀ (P : Prims) (mac n k data : Bytes),
+        (openDetachedInplaceStmtsOld7 P mac n k data).1 = .err →
+          (openDetachedInplaceStmtsOld7 P mac n k data).2 = data :=
+  Proofs.SecretBox.openDetachedInplaceStmtsOld7_violates
+
+/-- non-vacuity of the `Err` premises: forged authenticators on the interesting path (full length, rejected by the
+comparison), toy primitives; and the hypothesis `c.length < 2^64` -/
+example : (Model.SecretStream.pullStmts Proofs.SecretStream.toyPrims ([1, 2] ++ zeros 16) [0x42]
+    Proofs.SecretStream.storeToyMem).1 = .err := by decide
+example : (openDetachedStmts toyPrims (zeros 16) [1, 1, 1] toyNonce toyKey [4, 4, 4]).1 = .err := by decide
+example : (openDetachedInplaceStmts toyPrims (zeros 16) toyNonce toyKey [1, 1, 1]).1 = .err := by decide
+example : ([1, 1, 1] : Bytes).length < 2 ^ 64 := by decide
+/-- what the two orders hand back on the same forged ciphertext -/
+example :
+    openDetachedStmtsOld7 toyPrims (zeros 16) [1, 1, 1] toyNonce toyKey [4, 4, 4] = (.err, [0x5b, 0x5b, 0x5b]) ∧
+    openDetachedStmts toyPrims (zeros 16) [1, 1, 1] toyNonce toyKey [4, 4, 4] = (.err, [4, 4, 4]) :=
+  Proofs.SecretBox.openDetachedStmts_orders_on_forgery
+
+end StorePassing
+
 /-! ### non-vacuity: the `Err` premise is reachable (toy instance, forged tags) -/
 
 section NonVacuity
@@ -591,3 +713,19 @@ example : ∃ b, objSeal toyPrims toyMsg toyRpk toyEsk = .ok b ∧ objUnseal toy
 end NonVacuity
 
 end DryocVerif.Properties.C17
+
+section AxiomCheck
+open DryocVerif.Properties.C17
+#print axioms pullStmts_err_untouched
+#print axioms pullStmts_eq_pullRaw
+#print axioms pullStmts_never_panics
+#print axioms pullStmtsOld8_violates
+#print axioms pullStmtsOld8_res
+#print axioms pullStmtsEarlyState_violates
+#print axioms openDetachedStmts_err_untouched
+#print axioms openDetachedStmts_eq_openDetachedRaw
+#print axioms openDetachedInplaceStmts_err_untouched
+#print axioms openDetachedInplaceStmts_eq_openDetachedInplaceRaw
+#print axioms openDetachedStmtsOld7_violates
+#print axioms openDetachedInplaceStmtsOld7_violates
+end AxiomCheck
